@@ -686,7 +686,7 @@ _ADD = {
                            "stores into the arrays of the column matrix has tested-and-released the cached row copy rA on a dominating position "
                            "(mutators computed from effect summaries); (R-NORMLEN) every relative change of a basis record's row / structural count is "
                            "accompanied on every path by code that deals with the corresponding norm array; (R-PRICEDIM) a public function that may change "
-                           "the row / column count resets factorok or releases the devex data of the pricing record on every success path; (R-INVALPART) "
+                           "the row / column count resets factorok or releases the devex data of the pricing record on every success path - and likewise every array of the pricing record whose allocation length is a column dimension (found from the allocation sites; the primal steepest-edge norms among them); (R-INVALPART) "
                            "a public caller of a batch routine that can fail half-way drops the cached solution on the failing paths too (a batch rejected as a "
                            "whole - count unchanged - leaves it alone); (R-NORMSTALE) a public function that changes entries of the matrix without changing "
                            "a dimension releases both edge-norm arrays kept with p->basis on every success path; (R-FOREIGNNORMS) a basis record that moves "
